@@ -1,5 +1,5 @@
 """property id -> clauses (rule functions) + the honest remainder.  Single source for MANIFEST.json."""
-from . import r2, r3, r6, r9
+from . import r2, r3, r6, r7, r9, r10
 
 
 def fam(*names):
@@ -82,11 +82,13 @@ PROPS = {
         "technique": T_R3,
     },
     "C06": {
-        "clauses": [both(r3.check_radix)],
-        "not_decided": "bit-regrouping and chunked Horner/division arithmetic, the accept/reject language of the digit classifier, padding (core::fmt); BASES tables and formatter table (planned R7)",
+        "clauses": [both(r3.check_radix), r7.check_bases, r7.check_formatters, r9.check_sign_readers],
+        "not_decided": "bit-regrouping and chunked Horner/division arithmetic, the accept/reject language of the digit classifier, padding (delegated to core::fmt)",
         "level_text": "Decides: all 14 radix-taking entry points (7 per type) enforce their documented range - 2..=36 for text, 2..=256 for digit vectors - by a non-debug "
-        "assertion of their own or of the callee they forward the radix to, constants read from the MIR comparison operands, in dev and release builds.",
-        "technique": T_R3 + " with interprocedural radix-range summaries",
+        "assertion of their own or of the callee they forward the radix to, constants read from the MIR comparison operands, in dev and release builds; "
+        "both const-evaluated per-radix (base, power) tables are exactly the largest fitting powers for every radix 3..255; the ten formatter impls pass the right "
+        "(non-negativity flag, prefix, radix, magnitude text, upper-casing) to Formatter::pad_integral; BigInt text export reads the sign.",
+        "technique": T_R3 + " with interprocedural radix-range summaries; const-evaluated static tables read from the compiler; MIR argument-provenance tables",
     },
     "C07": {
         "clauses": [guards("shift"), fam("Shl", "Shr", "BitAnd", "BitOr", "BitXor")],
@@ -171,11 +173,21 @@ PROPS = {
         "and debug-only code is effect-free.",
         "technique": "type checking of the 10-configuration matrix; canonical MIR fingerprints across 4 fact configurations; cfg-taint (cross-config line diff + forward dataflow); dev-vs-release inventory",
     },
+    "C17": {
+        "clauses": [r7.check_serde_tables, r6.check_feature_stability],
+        "not_decided": "the u64 -> (lo, hi) split arithmetic and pair re-join; canonicalisation of deserialised digits (planned R1)",
+        "level_text": "Decides: Sign serialises as the i8 -1/0/1 and deserialises by the inverse table with an Err arm for every other byte (switch targets and promoted "
+        "constants read from MIR); BigInt <-> the pair (sign, magnitude) in this order, rebuilt through the canonicalising from_biguint; pre-allocation from "
+        "size hints is capped; the declared sequence length and the conditional emission of the last high half test the same value; enabling serde changes no other function.",
+        "technique": "MIR switch-table and constant extraction, argument provenance; cross-configuration MIR fingerprints",
+    },
     "C18": {
-        "clauses": [guards("range", "bound")],
-        "not_decided": "gen_biguint(n) < 2^n, word order / value stability, distribution; rejection-loop structure (planned R10)",
-        "level_text": "Decides: zero bound, empty and inverted range assertions of gen_biguint_below, gen_*_range and the Uniform samplers are mandatory and compare "
-        "the right operands with the right strictness (< for half-open, <= for inclusive).",
-        "technique": T_R3,
+        "clauses": [guards("range", "bound"), r10.check_rejection_loop, r10.check_gen_bigint, r10.check_delegations],
+        "not_decided": "gen_biguint(n) < 2^n and the platform-independent word order (shift arithmetic on the top word), the distribution itself",
+        "level_text": "Decides: zero bound / empty / inverted range assertions are mandatory and compare the right operands with the right strictness; gen_biguint_below is a "
+        "first-candidate rejection loop (bits = bound.bits(), strict <, candidate returned unchanged), hence every value of the range has equally many "
+        "pre-images; gen_bigint re-draws zero on one outcome of a fresh bool and picks the sign by another; RandomBits and the Uniform samplers delegate "
+        "with the right terms (base + below(high - low), inclusive = high + 1).",
+        "technique": T_R3 + "; CFG/loop-structure and argument-provenance analysis of the samplers",
     },
 }
